@@ -36,7 +36,7 @@ def bounds(tier):
 
 def goals(tier):
     return ["blind-complete", "near-miss-valid", "near-miss-invalid", "assembly-product", "assembly-moclo-error", "ambiguity-letter-in-structure",
-            "shorter-than-structure", "invalid-accessor-raises", "record-in-every-container", "several-modules-left-over"]
+            "shorter-than-structure", "invalid-accessor-raises", "record-in-every-container", "several-modules-left-over", "long-record-with-an-extra-site", "long-record"]
 
 
 def probe(st, sub, cls, s, scn, container="seq"):
@@ -141,6 +141,25 @@ def run_unit(unit, st, tier):
             vec, mods = asm.pieces_to_plasmids(scn0)
             insts = [mods[0], vec]
         gen.prime(classes)
+        # long records (300 / 1200 letters in the wildcard run) with and without one more cutter site in the middle of the run:
+        # whatever is reported about them is reported as for the short ones
+        g_ = gen.geometry_of(classes[0].cutter)
+        for wl in (300, 1200):
+            for site_ in ("", g_.site, g_.rsite):
+                w_ = gen.long_word(wl, seed=wl, forbid=["GGTCTC", "CGTCTC", "GAAGAC", g_.site])
+                if site_:
+                    w_ = w_[: wl // 2] + site_ + w_[wl // 2 + len(site_):]
+                try:
+                    long_text, _sp = gen.instantiate(classes[0].structure(), fill_scheme=0, star_text=w_, forbid=["GGTCTC", "CGTCTC", "GAAGAC", g_.site])
+                except Exception:
+                    continue
+                long_text += gen.word(1, 50, 6, [g_.site])
+                for cls in classes:
+                    for s_ in (long_text, long_text.lower(), rm.rot_right(long_text, len(long_text) // 2)):
+                        v = probe(st, "near-miss", cls, s_, lambda: dict(family="near", cls=cls.__name__, seq=s_, mod="long" + ("-extra-site" if site_ else "")))
+                        st.scenario("near-" + ("valid" if v else "invalid"), None, calls=4)
+                        st.nontrivial += 1
+                        st.goal("long-record-with-an-extra-site" if site_ else "long-record")
         for text in insts:
             n = len(text)
             variants = []
